@@ -1,0 +1,14 @@
+//go:build verif
+
+package kapacitor
+
+// VerifHook, when installed by a verification harness, is called at the
+// points marked verifHook(...) in this package.  It may block (scheduling gate)
+// or panic (fault injection).  Absent from normal builds.
+var VerifHook func(point string, args ...string)
+
+func verifHook(point string, args ...string) {
+	if h := VerifHook; h != nil {
+		h(point, args...)
+	}
+}
